@@ -23,7 +23,7 @@ func TestMain(m *testing.M) {
 			return err
 		}
 		// replay is strict: known findings are not excluded, so a witness of an open finding fails here
-		s, err := sim.RunCase(c, env.Options{}, sim.Hooks{})
+		s, err := sim.RunCase(c, optsFor(c), sim.Hooks{})
 		if s != nil {
 			s.Close()
 		}
@@ -34,7 +34,7 @@ func TestMain(m *testing.M) {
 		if err := json.Unmarshal(raw, &c); err != nil {
 			return err
 		}
-		s, err := sim.RunCase(c, env.Options{}, sim.Hooks{})
+		s, err := sim.RunCase(c, optsFor(c), sim.Hooks{})
 		if s != nil {
 			s.Close()
 		}
@@ -46,7 +46,7 @@ func TestMain(m *testing.M) {
 			return err
 		}
 		defer useClientPool()()
-		s, err := sim.RunCase(c, env.Options{}, sim.Hooks{})
+		s, err := sim.RunCase(c, optsFor(c), sim.Hooks{})
 		if s != nil {
 			s.Close()
 		}
@@ -161,7 +161,7 @@ func connectPre(t *testing.T, cfg pbt.Cfg, p sim.Profile, pre func()) {
 		if pre != nil {
 			pre()
 		}
-		s, err := sim.RunCaseOpen(c, env.Options{}, sim.Hooks{}, pbt.FindingOpen)
+		s, err := sim.RunCaseOpen(c, optsFor(c), sim.Hooks{}, pbt.FindingOpen)
 		if s != nil {
 			defer s.Close()
 			if n := sim.TakeVouchedSeen(); n > 0 {
@@ -249,4 +249,12 @@ func TestSubsidy(t *testing.T) {
 			r.Failf("%v", err)
 		}
 	})
+}
+
+// optsFor: every other history runs with UTXO callbacks installed, as the client does while its wallet is on.
+func optsFor(c sim.Case) env.Options {
+	if (len(c.Ops)+c.Params.Prefix)%2 == 1 {
+		return env.Options{UTXOCallbacks: env.ObserverCallbacks()}
+	}
+	return env.Options{}
 }
